@@ -188,6 +188,18 @@ def _distinct_labels_rule(index, rep):
                 tainted = _derived(f, {recv.id}) if isinstance(recv, ast.Name) else set()
                 ok = any(s in tainted for s in sets)
                 why = "the tested collection (%s) is not derived from the namespace require_taxon is called on" % ", ".join(sorted(sets))
+            if ok:
+                # ... and is a snapshot of ALL labels: the collection it is built from has not been consumed before
+                for sname in sorted(s_ for s_ in sets if s_ in tainted):
+                    for d in g.nodes:
+                        if d.kind == "stmt" and isinstance(d.ast, ast.Assign) and norm(d.ast.targets[0]) == sname and not is_none(d.ast.value):
+                            srcs = {x.id for x in ast.walk(d.ast.value) if isinstance(x, ast.Name) and x.id in tainted and x.id != (recv.id if isinstance(recv, ast.Name) else None)}
+                            for src in sorted(srcs):
+                                shrinks = [m for m in g.nodes if any(isinstance(cc.func, ast.Attribute) and cc.func.attr in ("pop", "remove", "clear") and norm(cc.func.value) == src for cc in node_calls(m))]
+                                for m in shrinks:
+                                    if g.can_reach(m, lambda x, d=d: x is d, follow_exc=False) is not None:
+                                        ok = False
+                                        why = "the label set `%s` is built from `%s` after `%s` has been consumed by `%s`" % (sname, src, src, norm_stmt(m.stmt)[:40])
             rep.check(ok, "R18.3", f.qualname, "generated label reaches require_taxon unchecked", fn_where(f, c), "%s: generated labels are checked against the labels in use before require_taxon" % f.name,
                       "%s: %s; require_taxon returns the existing Taxon when the label is already in the namespace, so two tips (or a tip and a taxon assigned earlier from the pool) can carry the same taxon: the N extant leaves do not carry N distinct taxa when the supplied namespace already holds labels of the generated form" % (f.qualname, why))
     rep.floor("R18.3", "require_taxon sites in the birth-death simulators", 2, n)
